@@ -810,6 +810,8 @@ def run_shard(desc, tier):
             variants += [(base, d) for d in range(len(base) + 0)] + [([B], 0)]
             if len(B) > 2:
                 variants += [(base, "1+cl"), ([B[:1], B[1:2], B[2:]], "2+cl")]
+            # the whole body in the first message, but the final (empty) message still to come - or never coming
+            variants += [([B, b""], None), ([B, b""], 1)]
         for chunks, disc_at in variants:
             for n in range(1, DEPTH[tier] + 1):
                 for seq in itertools.product(ACCESSES + ["obtain", "drain"] + (["poll"] if iface == "asgi" else []), repeat=n):
